@@ -38,6 +38,7 @@ type ObAgg struct {
 	Unknown int               `json:"unknown"`
 	Model   map[string]string `json:"model,omitempty"`
 	Decisions []int           `json:"decisions,omitempty"`
+	Sched     []int           `json:"schedule,omitempty"`
 	Detail  string            `json:"detail,omitempty"`
 	Scripts []scriptRec       `json:"-"`
 }
@@ -171,6 +172,7 @@ func explore(prog *ssa.Program, fn *ssa.Function, cfg ExploreConfig) *HarnessRes
 					if a.Model == nil {
 						a.Model = ob.Model
 						a.Decisions = ob.Decisions
+						a.Sched = ob.Sched
 					}
 				default:
 					a.Unknown++
@@ -227,7 +229,11 @@ type pathEnd struct {
 // runPath executes fn once under the decision prefix (or, when concrete != nil, on a
 // concrete input vector without a solver).
 func runPath(prog *ssa.Program, fn *ssa.Function, cfg ExploreConfig, solver *Solver, prefix []int, concrete map[string]string) (p *Path) {
-	p = &Path{
+	return runPathSched(prog, fn, cfg, solver, prefix, concrete, nil)
+}
+
+func runPathSched(prog *ssa.Program, fn *ssa.Function, cfg ExploreConfig, solver *Solver, prefix []int, concrete map[string]string, sched []int) (p *Path) {
+	p = &Path{schedReplay: sched,
 		store: NewStore(), solver: solver, enc: cfg.Enc, prefix: prefix,
 		stepBudget: cfg.StepBudget, covers: map[string]map[string]string{}, fnsSeen: map[*ssa.Function]bool{},
 		locks: map[*value]*lockState{}, nondetSeq: map[string]int{}, stubs: map[string]value{},
